@@ -135,7 +135,7 @@ func (p *printer) commentsHaveNewline(list []*ast.Comment) bool {
 			// not all comments on the same line
 			return true
 		}
-		if t := c.Text; len(t) >= 2 && (t[1] == '/' || strings.Contains(t, "\n")) {
+		if t := c.Text; isLineComment(t) || strings.Contains(t, "\n") {
 			return true
 		}
 	}
@@ -359,6 +359,12 @@ func (p *printer) writeString(pos token.Position, s string, isLit bool) {
 	p.last = p.pos
 }
 
+// isLineComment reports whether text is a comment that runs to the end of its line:
+// a //-style comment or an XGo #-style comment (which may be the single byte "#").
+func isLineComment(text string) bool {
+	return text[0] == '#' || len(text) > 1 && text[1] == '/'
+}
+
 // writeCommentPrefix writes the whitespace before a comment.
 // If there is any pending whitespace, it consumes as much of
 // it as is likely to help position the comment nicely.
@@ -377,7 +383,7 @@ func (p *printer) writeCommentPrefix(pos, next token.Position, prev *ast.Comment
 		return
 	}
 
-	if pos.Line == p.last.Line && (prev == nil || prev.Text[1] != '/') {
+	if pos.Line == p.last.Line && (prev == nil || !isLineComment(prev.Text)) {
 		// comment on the same line as last item:
 		// separate with at least one separator
 		hasSep := false
@@ -475,7 +481,7 @@ func (p *printer) writeCommentPrefix(pos, next token.Position, prev *ast.Comment
 
 		// make sure there is at least one line break
 		// if the previous comment was a line comment
-		if n == 0 && prev != nil && prev.Text[1] == '/' {
+		if n == 0 && prev != nil && isLineComment(prev.Text) {
 			n = 1
 		}
 
@@ -660,8 +666,8 @@ func (p *printer) writeComment(comment *ast.Comment) {
 		p.indent = 0
 	}
 
-	// shortcut common case of //-style comments
-	if text[1] == '/' {
+	// shortcut common case of //-style (and XGo #-style) comments
+	if isLineComment(text) {
 		p.writeString(pos, trimRight(text), true)
 		return
 	}
@@ -775,7 +781,7 @@ func (p *printer) intersperseComments(next token.Position, tok token.Token) (wro
 		// use that information to decide more directly.
 		needsLinebreak := false
 		if p.mode&noExtraBlank == 0 &&
-			last.Text[1] == '*' && p.lineFor(last.Pos()) == next.Line &&
+			!isLineComment(last.Text) && p.lineFor(last.Pos()) == next.Line &&
 			tok != token.COMMA &&
 			(tok != token.RPAREN || p.prevOpen == token.LPAREN) &&
 			(tok != token.RBRACK || p.prevOpen == token.LBRACK) {
@@ -787,7 +793,7 @@ func (p *printer) intersperseComments(next token.Position, tok token.Token) (wro
 		}
 		// Ensure that there is a line break after a //-style comment,
 		// before EOF, and before a closing '}' unless explicitly disabled.
-		if last.Text[1] == '/' ||
+		if isLineComment(last.Text) ||
 			tok == token.EOF ||
 			tok == token.RBRACE && p.mode&noExtraLinebreak == 0 {
 			needsLinebreak = true
